@@ -22,12 +22,14 @@ from .alg import P, Unmodelled, ValueDependent, to_P
 
 
 class Storage:
-    __slots__ = ("owner", "frozen", "version")
+    __slots__ = ("owner", "frozen", "version", "twin", "root")
 
     def __init__(self, owner=None, frozen=False):
         self.owner = owner
         self.frozen = frozen
         self.version = 0
+        self.twin = None     # concrete tensor this storage was converted from by x.to(sym) (torch returns x itself)
+        self.root = None
 
 
 FRAME_VIOLATIONS = []      # (owner, primitive) for writes into frozen storages
@@ -231,6 +233,8 @@ def _new(arr):
 
 def _write(t, prim):
     t._stor.version += 1
+    if t._stor.twin is not None:
+        _link(t._stor, prim)
     if t._stor.frozen:
         FRAME_VIOLATIONS.append((t._stor.owner, prim))
 
@@ -350,8 +354,28 @@ def _to(self, *a, **k):
         if tgt_dtype is not None and tgt_dtype not in (torch.double,):
             raise Unmodelled("to(dtype=%s) of a symbolic tensor" % tgt_dtype)
         return self
-    # concrete tensor converted "like" a symbolic one
-    return SymTensor(_obj(self))
+    # concrete tensor converted "like" a symbolic one (x.to(sym)): torch returns x itself when dtype and
+    # device already match.  The result is a symbolic twin; the first in-place write through it links
+    # the concrete tensor to the same storage (see _link), so aliasing with the caller's tensor is kept.
+    with torch._C.DisableTorchFunctionSubclass():
+        same = self.dtype == torch.double and self.device.type == "cpu"
+    r = SymTensor(_obj(self))
+    if same:
+        r._stor.twin = self
+        r._stor.root = r._arr
+    return r
+
+
+def _link(stor, prim):
+    tw = stor.twin
+    stor.twin = None
+    with torch._C.DisableTorchFunctionSubclass():
+        if tw._is_view() or torch._C._storage_Use_Count(tw.untyped_storage()._cdata) != 2:
+            raise Unmodelled("in-place write through the .to() alias of a concrete tensor that has views (%s)" % prim)
+    tw.__class__ = SymTensor
+    tw._arr = stor.root
+    tw._stor = stor
+    tw._stale = False
 
 
 @H("double", "cpu", "contiguous", "float64", "requires_grad_", "coalesce", "resolve_conj", "resolve_neg")
